@@ -8,6 +8,10 @@ def gen_events(ctx, res):
     g = vlib.tlc("Gen_C20", cfg, workdir=ctx.work, workers=8, timeout=600)
     res.add_tlc(g)
     cases = g.tagged("CASE")
+    # ordinary names that merely START with a dot (hidden files and directories, "..."): every pair to depth 3
+    g2 = vlib.tlc("Gen_C20", "Gen_C20_dots.cfg", workdir=ctx.work, workers=8, timeout=600)
+    res.add_tlc(g2)
+    cases = cases + g2.tagged("CASE")
     if not cases:
         raise vlib.ToolError("Gen_C20 produced no cases")
     vlib.write_ndjson(ctx.path("cases.ndjson"), cases)
@@ -18,7 +22,7 @@ def gen_events(ctx, res):
 
 
 SCHEMA_OUTS = ["./gen/schema.d.ts", "./schema.generated.d.ts", "./out/deep/graphql.schema.d.ts", "./types/api.v2.types.d.mts", "./ops/s.d.ts",
-               "./out/x.y/schema.d.cts", "./gen/plain.ts"]
+               "./out/x.y/schema.d.cts", "./gen/plain.ts", "./.generated/schema.d.ts", "./ops/.hidden/s.d.ts"]
 
 
 def consumers(ctx):
@@ -78,7 +82,7 @@ def run(ctx, res):
     res.exhaustive = True
     res.rule = ("TLC enumerates every ordered pair of file paths over {x,y,.,..} to depth %d (Gen_C20); each pair is "
                 "driven through relative_path/normalize_path/resolve_relative_path and judged by Paths!RelContract in "
-                "Trace_C20; plus seeded random pairs to depth 7. Consumers: %d events from real CLI runs (output names with inner dots, "
+                "Trace_C20; likewise every pair over {x,.h,...,.,..} to depth 3 (names that only start with a dot); plus seeded random pairs to depth 7. Consumers: %d events from real CLI runs (output names with inner dots, "
                 ".d.ts / .d.mts / .d.cts / .ts, output directories above / below / beside the inputs): the schema module specifier of every "
                 "operation and resolver declaration file must be relative and resolve to the schema declaration file after the documented "
                 "TS -> JS extension rewrite, and every `sources` entry of every source map must resolve to an input file. "
